@@ -22,12 +22,19 @@ RULE = ("ints: 0, +-(10^k-2..10^k+2) for k=0..18, int64 extremes, every permutat
         "batches, join/split (several separators), bool / List[bool] / Optional[int] / Optional[float] columns, float matrices "
         "with row names, missing floats, array arguments in every memory layout (C / Fortran / transposed / strided / "
         "negative-stride / column-sliced views of the same values; 2-d matrices of several non-square shapes and 1-d columns), "
-        "and texts that are not numbers (lone sign, lone dot, two dots) which must be reported. Non-trivial = |n| within 2 "
+        "and texts that are not numbers (lone sign, lone dot, two dots) which must be reported; sub-batches of a LAZILY read file "
+        "(a six-column table int / signed int / float / List[int] / Optional[int] / str through a DelimitedBuffer, and BED files; "
+        "read_chunk / read / concatenated read_chunks): programs of 2..8 steps that select rows from the table the reader returns "
+        "(index lists with repeats and negative indices, permutations, boolean masks dropping an early row, tail / head / stepped / "
+        "reversed / inner slices, chained, also empty) BEFORE, between and after the accesses to its columns in every order, and "
+        "write the selected table in between; lines of equal length in one table in four; every column read and every written "
+        "line must be that selection of the file's values, each integer column also against the Lean model of the column reader "
+        "on exactly that sub-batch. Non-trivial = |n| within 2 "
         "of a power of ten, an int64 extreme, a sign, or a batch with >= 2 widths (ints); >= 2 rows or an exponent or >= 16 "
         "digits (floats)")
 EXHAUSTIVE = {"quick": False, "thorough": False}
 MODEL_OPS = {"fmt", "parse", "parse1", "intlists", "splitparse", "fparse", "column_ints", "parse_missing", "froundtrip",
-             "int_to_str", "join", "split", "boollists", "fparse_missing", "reject", "frepr"}
+             "int_to_str", "join", "split", "boollists", "fparse_missing", "reject", "frepr", "lazy_ints"}
 PARALLEL = 0
 ASSUMPTIONS = [
     "int64 arithmetic is modelled as unbounded Int with wrap64 applied to the result (NumPy ops are ring homomorphisms mod 2^64)",
@@ -48,7 +55,8 @@ MANIFEST = {
             "spec_roundtrip (round trips), int_lists / split_join / int_lists_roundtrip (List[int] join and split element by "
             "element), batch_independent (a batch is the concatenation of its one-row results), parse_single (non-ragged 1-D path), "
             "digit_matrix + column_ints (the right-aligned zero-filled digit matrix used for integer columns of files, any mix of "
-            "widths), parse_missing (optional columns), float_logic_partial / float_logic_sci_partial / float_logic_spec_partial "
+            "widths), column_ints_selection (the column of ANY selection of the rows - index list in any order, with repeats - is "
+            "that selection of the values, whichever route the selected rows take), parse_missing (optional columns), float_logic_partial / float_logic_sci_partial / float_logic_spec_partial "
             "(for every text of the numeral grammar [+-]I[.F][e[+-]X] the float parser's validity check, sign/dot handling, digit "
             "placement and exponent denote exactly the numeral's value), format_wide / int_to_str_spec (all magnitudes < 10^20), "
             "canonical_unique, parse_int_some_iff (succeeds exactly on the grammar), join_split + split_pieces + splitBy_spec, "
@@ -420,8 +428,129 @@ def cases(tier, rng):
                "lists": [[_rand_int(rng) for _ in range(rng.choice([1, 2, 4]))] for _ in range(n)]}
 
 
+    # ---- sub-batches of a LAZILY read file: rows are selected from the table the reader returns (index list / permutation /
+    #      boolean mask / slices: tail, head, stepped, reversed, inner; chained) BEFORE, between and after the accesses to its
+    #      number columns; the selected table is also written out in between (the writer compacts the selection in place)
+    for _ in range(2500 if big else 220):
+        yield _lazy_case(rng)
+
+
+LAZY_TABLES = {"custom": [("a", "int"), ("b", "int"), ("x", "float"), ("l", "ilist"), ("o", "oint"), ("s", "str")],
+               "bed": [("chromosome", "str"), ("start", "int"), ("stop", "int")]}
+
+
+def _lazy_field(rng, typ, unsigned, equal_width):
+    if typ == "int":
+        if equal_width:
+            return str(rng.randint(100, 999))
+        if unsigned:
+            v = abs(rng.choice(_SPECIAL) if rng.random() < 0.3 else _rand_int(rng))
+            v = min(v, I64MAX)
+            return ("0" * rng.choice([1, 2, 5]) if rng.random() < 0.15 else "") + str(v)
+        return _int_text(rng)
+    if typ == "float":
+        return "%d.5" % rng.randint(10, 99) if equal_width else _float_text(rng)
+    if typ == "ilist":
+        return ",".join(str(_rand_int(rng)) for _ in range(rng.choice([0, 1, 1, 2, 4])))
+    if typ == "oint":
+        return rng.choice(["", ".", _int_text(rng), str(rng.randint(0, 99))])
+    return rng.choice(["chr1", "chr2", "chrX", "c", "scaffold_12", "u"]) if not equal_width else "chr" + rng.choice("123456789")
+
+
+def _rand_selector(rng, n):
+    """a row selection of a table with n rows, as JSON: index list / permutation / boolean mask / slice"""
+    k = rng.random()
+    if n == 0:
+        return {"t": "slice", "v": [None, None, None]}
+    if k < 0.2:
+        p = list(range(n))
+        rng.shuffle(p)
+        return {"t": "idx", "v": p, "arr": rng.random() < 0.5}                      # a permutation
+    if k < 0.4:
+        return {"t": "idx", "v": [rng.randrange(-n, n) for _ in range(rng.choice([1, 2, 3, n, n + 2]))], "arr": rng.random() < 0.5}
+    if k < 0.6:
+        m = [rng.random() < 0.6 for _ in range(n)]
+        if not any(m) and rng.random() < 0.8:
+            m[rng.randrange(n)] = True
+        if rng.random() < 0.5:
+            m[0] = False                                                             # an EARLY row dropped
+        return {"t": "mask", "v": m}
+    return {"t": "slice", "v": rng.choice([[1, None, None], [None, -1, None], [None, None, 2], [None, None, -1], [1, None, 2],
+                                            [rng.randrange(n), None, None], [None, rng.randint(1, n), None], [None, None, -2],
+                                            [rng.randrange(n), rng.randint(1, n), None], [n // 2, None, None]])}
+
+
+def _apply_selector(seq, sel):
+    if sel["t"] == "idx":
+        return [seq[i] for i in sel["v"]]
+    if sel["t"] == "mask":
+        return [r for r, m in zip(seq, sel["v"]) if m]
+    return seq[slice(*sel["v"])]
+
+
+def _lazy_case(rng):
+    table = "bed" if rng.random() < 0.3 else "custom"
+    cols = LAZY_TABLES[table]
+    n = rng.choice([1, 2, 3, 4, 6, 9, 15])
+    unsigned = table == "bed" or rng.random() < 0.5        # no sign anywhere in column a: the fixed-width digit matrix route
+    equal_width = rng.random() < 0.25                      # lines of equal length: stale offsets would give no error
+    rows = [[_lazy_field(rng, typ, unsigned or name != "b", equal_width) for name, typ in cols] for _ in range(n)]
+    if table == "custom" and unsigned:
+        for r in rows:                                     # column b signed only in some tables
+            if rng.random() < 0.5:
+                r[1] = _lazy_field(rng, "int", True, equal_width)
+    numeric = [name for name, typ in cols if typ != "str"]
+    shape = rng.random()
+    cur = n
+    steps = []
+
+    def sel():
+        nonlocal cur
+        s_ = _rand_selector(rng, cur)
+        cur = len(_apply_selector(list(range(cur)), s_))
+        steps.append({"k": "sel", "sel": s_})
+
+    def get(col=None):
+        steps.append({"k": "get", "col": col or rng.choice([name for name, _ in cols])})
+    if shape < 0.35:                                       # select, then the number columns in some order
+        sel()
+        if rng.random() < 0.3:
+            sel()
+        order = list(numeric)
+        rng.shuffle(order)
+        for c_ in order:
+            get(c_)
+    elif shape < 0.5:                                      # one column first (cached), select, then the others and the first again
+        first = rng.choice(numeric)
+        get(first)
+        sel()
+        for c_ in rng.sample(numeric, len(numeric)):
+            get(c_)
+    elif shape < 0.65:                                     # select, write the selection, then read its columns; select again
+        sel()
+        steps.append({"k": "write"})
+        get(rng.choice(numeric))
+        sel()
+        get(rng.choice(numeric))
+        get(rng.choice(numeric))
+    else:
+        for _ in range(rng.randint(2, 7)):
+            k = rng.random()
+            if k < 0.4:
+                sel()
+            elif k < 0.9:
+                get(rng.choice(numeric) if rng.random() < 0.8 else None)
+            else:
+                steps.append({"k": "write"})
+        get(rng.choice(numeric))
+    return {"op": "lazy_prog", "table": table, "rows": rows, "steps": steps,
+            "read": rng.choice(["read_chunk", "read_chunk", "read", "chunks"]), "chunk": rng.choice([1, 30, 100])}
+
+
 def nontrivial(c):
     op = c["op"]
+    if op == "lazy_prog":
+        return any(st["k"] == "sel" for st in c["steps"]) and len(c["rows"]) >= 2
     if op in ("fmt", "roundtrip"):
         ns = c["ns"]
     elif op == "intlists":
@@ -602,6 +731,110 @@ def _column_ints_impl(c):
     text = "".join(t + "\tz\n" for t in c["rows"])
     buf = _INTBUF.from_raw_buffer(np.frombuffer(text.encode("ascii"), dtype=np.uint8).copy())
     return [int(v) for v in buf.get_data().a]
+
+
+_LAZYBUF = None
+
+
+def _lazy_buffer():
+    global _LAZYBUF
+    if _LAZYBUF is None:
+        from typing import List, Optional
+        from bionumpy.bnpdataclass import bnpdataclass
+        from bionumpy.io.delimited_buffers import DelimitedBuffer
+
+        @bnpdataclass
+        class LazyRow:
+            a: int
+            b: int
+            x: float
+            l: List[int]
+            o: Optional[int]
+            s: str
+
+        class LazyRowBuffer(DelimitedBuffer):
+            dataclass = LazyRow
+
+        _LAZYBUF = LazyRowBuffer
+    return _LAZYBUF
+
+
+def _np_selector(sel):
+    if sel["t"] == "idx":
+        return np.array(sel["v"], dtype=int) if sel.get("arr") else list(sel["v"])
+    if sel["t"] == "mask":
+        return np.array(sel["v"], dtype=bool)
+    return slice(*sel["v"])
+
+
+def _lazy_column(table, typ):
+    if typ == "int" or typ == "oint":
+        return [int(v) for v in table]
+    if typ == "float":
+        return [f2h(v) for v in table]
+    if typ == "ilist":
+        return [[int(v) for v in r] for r in table]
+    return [str(v) for v in table.tolist()]
+
+
+def _lazy_line(fields, cols):
+    """the numbers (and texts) one written line denotes, read with Python's own int()/float()"""
+    if len(fields) != len(cols):
+        return {"err": "field-count", "n": len(fields)}
+    out = []
+    for f, (_, typ) in zip(fields, cols):
+        if typ == "int":
+            out.append(int(f))
+        elif typ == "float":
+            out.append(f2h(float(f)))
+        elif typ == "ilist":
+            out.append([int(v) for v in f.split(",") if v != ""])
+        elif typ == "oint":
+            out.append("missing" if f in ("", ".") else int(f))
+        else:
+            out.append(f)
+    return out
+
+
+def _lazy_prog_impl(c):
+    import shutil
+    import tempfile
+    import bionumpy as bnp
+    cols = LAZY_TABLES[c["table"]]
+    d = tempfile.mkdtemp(prefix="c18-")
+    try:
+        suffix = ".bed" if c["table"] == "bed" else ".txt"
+        kw = {} if c["table"] == "bed" else {"buffer_type": _lazy_buffer()}
+        p = d + "/t" + suffix
+        with open(p, "w") as fh:
+            fh.write("".join("\t".join(r) + "\n" for r in c["rows"]))
+        f = bnp.open(p, **kw)
+        if c["read"] == "read_chunk":
+            t = f.read_chunk()
+        elif c["read"] == "read":
+            t = f.read()
+        else:
+            t = np.concatenate(list(f.read_chunks(min_chunk_size=c["chunk"])))
+        out = []
+        n_written = 0
+        for st in c["steps"]:
+            if st["k"] == "sel":
+                t = t[_np_selector(st["sel"])]
+            elif st["k"] == "get":
+                typ = dict(cols)[st["col"]]
+                out.append(_lazy_column(getattr(t, st["col"]), typ))
+            else:
+                q = d + "/w%d%s" % (n_written, suffix)
+                n_written += 1
+                with bnp.open(q, "w", **kw) as w:
+                    w.write(t)
+                lines = open(q).read().split("\n")
+                if lines[-1] != "":
+                    return {"err": "written-file-does-not-end-with-newline"}
+                out.append([_lazy_line(ln.split("\t"), cols) for ln in lines[:-1]])
+        return out
+    finally:
+        shutil.rmtree(d, ignore_errors=True)
 
 
 LAYOUTS_2D = ["C", "F", "T", "strided", "neg", "colslice", "Tstrided"]
@@ -788,6 +1021,8 @@ def impl(c):
             return [f2h(v) for v in st.str_to_float(c["rows"])]
         if op == "column_ints":
             return _column_ints_impl(c)
+        if op == "lazy_prog":
+            return _lazy_prog_impl(c)
         if op == "parse_missing":
             return [int(v) for v in st.str_to_int_with_missing(c["rows"], c["missing"])]
         if op == "matrix":
@@ -880,6 +1115,47 @@ def oracle(c):
                 "cols": ["c%d" % i for i in range(len(ds[0]))]}
     if op == "reject":
         return {"err": "encoding"}
+    if op == "lazy_prog":
+        cols = LAZY_TABLES[c["table"]]
+
+        def value(t, typ):
+            if typ == "int":
+                v = _int_text_value(t)
+                return v if v is not None and I64MIN <= v <= I64MAX else None
+            if typ == "oint":
+                if t in ("", "."):
+                    return "missing"
+                v = _int_text_value(t)
+                return v if v is not None and I64MIN <= v <= I64MAX else None
+            if typ == "float":
+                dd = parse_float_text(t)
+                if dd is None or not math.isfinite(float(t)) or (float(t) != 0 and abs(float(t)) < 2.3e-308) \
+                        or ("e" in t and abs(int(t.split("e")[1])) > 300):
+                    return None
+                return dd
+            if typ == "ilist":
+                vs = [_int_text_value(u) for u in t.split(",") if u != ""]
+                return None if any(v is None or not (I64MIN <= v <= I64MAX) for v in vs) else vs
+            return t
+        vals = [[value(t, typ) for t, (_, typ) in zip(r, cols)] for r in c["rows"]]
+        if any(v is None for r in vals for v in r) or any(len(r) != len(cols) for r in c["rows"]):
+            return SKIP
+        names = [name for name, _ in cols]
+        out = []
+        for st in c["steps"]:
+            if st["k"] == "sel":
+                if st["sel"]["t"] == "idx" and any(not (-len(vals) <= i < len(vals)) for i in st["sel"]["v"]):
+                    return SKIP
+                if st["sel"]["t"] == "mask" and len(st["sel"]["v"]) != len(vals):
+                    return SKIP
+                vals = _apply_selector(vals, st["sel"])
+            elif st["k"] == "get":
+                j = names.index(st["col"])
+                # a missing Optional[int] reads as 0 in the parsed column; in a written line it stays missing
+                out.append({"col": [(0 if (cols[j][1] == "oint" and r[j] == "missing") else r[j]) for r in vals], "typ": cols[j][1]})
+            else:
+                out.append({"lines": [list(r) for r in vals]})
+        return out
     if op == "fmt":
         info = np.iinfo(np.dtype(c.get("dtype", "int64")))
         if any(not (int(info.min) <= n <= int(info.max)) for n in c["ns"]):
@@ -961,8 +1237,35 @@ def _opt_float_rows_ok(got, exp):
     return True
 
 
+def _lazy_value_ok(g, e, typ):
+    if typ == "float":
+        return isinstance(g, str) and isinstance(e, dict) and ulps(float.fromhex(g), dec_to_float(e)) <= ULP_TOL
+    return type(g) is type(e) and g == e
+
+
+def _lazy_agree(c, got, exp):
+    cols = LAZY_TABLES[c["table"]]
+    if not isinstance(got, list) or len(got) != len(exp):
+        return False
+    for g, e in zip(got, exp):
+        if not isinstance(g, list):
+            return False
+        if "col" in e:
+            if len(g) != len(e["col"]) or not all(_lazy_value_ok(a, b, e["typ"]) for a, b in zip(g, e["col"])):
+                return False
+        else:
+            if len(g) != len(e["lines"]):
+                return False
+            for gl, el in zip(g, e["lines"]):
+                if not isinstance(gl, list) or len(gl) != len(el) or not all(_lazy_value_ok(a, b, typ) for a, b, (_, typ) in zip(gl, el, cols)):
+                    return False
+    return True
+
+
 def agree(c, got, exp):
     op = c["op"]
+    if op == "lazy_prog":
+        return _lazy_agree(c, got, exp)
     if op == "fparse":
         return _float_rows_ok(got, exp)
     if op == "fparse_missing":
@@ -991,6 +1294,12 @@ def _decs_denote(decs, xs):
 
 
 def agree_model(c, got, m):
+    if c["op"] == "lazy_prog":
+        # the integer columns the program read, each against the Lean model of the column reader on that sub-batch
+        b = _lazy_int_batches(c)
+        if not isinstance(got, list):
+            return all(x == {"err": "encoding"} for x in m) and got == {"err": "encoding"} if m else False
+        return len(b) == len(m) and all(k < len(got) and core.canon(got[k]) == core.canon(mv) for (k, _, _), mv in zip(b, m))
     if c["op"] == "fparse":
         return _float_rows_ok(got, m)
     if c["op"] == "fparse_missing":
@@ -1007,6 +1316,9 @@ def agree_model(c, got, m):
 
 
 def agree_spec(c, s, exp):
+    if c["op"] == "lazy_prog":
+        b = _lazy_int_batches(c)
+        return len(b) == len(s) and all(core.canon(exp[k]["col"]) == core.canon(sv) for (k, _, _), sv in zip(b, s))
     if c["op"] == "froundtrip":
         return _decs_denote(s, c["xs"])
     if c["op"] == "reject":
@@ -1014,7 +1326,33 @@ def agree_spec(c, s, exp):
     return core.canon(s) == core.canon(exp)
 
 
+def _lazy_int_batches(c):
+    """for every access to an `int` column in the program: (position among the program's observations, column number,
+    file positions of the rows selected at that moment) - the selections are applied here to range(n) with plain list indexing"""
+    cols = LAZY_TABLES[c["table"]]
+    names = [name for name, _ in cols]
+    rows = list(range(len(c["rows"])))
+    out = []
+    k = 0
+    for st in c["steps"]:
+        if st["k"] == "sel":
+            try:
+                rows = _apply_selector(rows, st["sel"])
+            except IndexError:
+                return None
+        else:
+            if st["k"] == "get" and dict(cols)[st["col"]] == "int":
+                out.append((k, names.index(st["col"]), list(rows)))
+            k += 1
+    return out
+
+
 def model_request(c):
+    if c["op"] == "lazy_prog":
+        b = _lazy_int_batches(c)
+        if not b or any(len(r) != len(LAZY_TABLES[c["table"]]) for r in c["rows"]):
+            return None
+        return {"op": "lazy_ints", "lines": c["rows"], "reads": [{"col": col, "sel": sel} for _, col, sel in b]}
     if c["op"] == "froundtrip":
         # the Lean side checks the repr SHAPE of the text (reprGrammar) and then applies the parser's logic
         return {"op": "frepr", "rows": [repr(float.fromhex(h)) for h in c["xs"]]}
@@ -1065,6 +1403,8 @@ def finding_key(c, got, exp):
         return "list_bool_column:cannot-be-written" if isinstance(got, dict) and "err" in got else op + ":wrong-result"
     if op == "reject":
         return "reject:not-a-number-read-as-a-value"
+    if op == "lazy_prog":
+        return "lazy_subbatch:" + ("error" if isinstance(got, dict) else "wrong-value")
     return op + ":wrong-result"
 
 
